@@ -35,7 +35,7 @@ class AggGen:
             return self.alloc(f'count({a.text})', 'ACount', a.coq, T_INT, 'count(x)')
         if t in (T_INT, T_DEC, T_BOOL) and r < 0.65:
             a = self.g.expr(t, d)
-            zero = {'int': '(VInt 0)', 'decimal': '(VDec (mkdec false 0 0))', 'bool': '(VBool false)'}[t]
+            zero = {'int': '(VInt 0)', 'decimal': '(VDec (mkdec false 0 0))', 'bool': '(VInt 0)'}[t]  # sum(bool) announces int since fix 26ccdff
             return self.alloc(f'sum({a.text})', f'(ASum {zero})', a.coq, t, f'sum[{t}]')
         a = self.g.expr(t, d)
         fn, tag = self.rng.choice([('first', 'AFirst'), ('last', 'ALast'), ('min', 'AMin'), ('max', 'AMax')])
